@@ -644,6 +644,6 @@ fn main() {
 			}
 		}
 	}
-	rec.notes.insert("rule".into(), "boundary sweep (±window) around every comparison of check_incoming_htlc_cltv for 7 deltas, plus PRNG-drawn real onions through the public peel_payment_onion; e2e families on real 3-node networks: dead downstream (single blocks / jumps), pending splice + holding cell, intercepted HTLC held across its timeout boundary (d=-1..7, steps 1-3), forwarded HTLC only in the counterparty's commitment, inbound HTLC with known preimage and a silent upstream; every case is distinct by its op text".into());
+	rec.notes.insert("rule".into(), "boundary sweep (±window) around every comparison of check_incoming_htlc_cltv for 7 deltas, plus PRNG-drawn real onions through the public peel_payment_onion; e2e families on real 3-node networks: dead downstream (single blocks / jumps), pending splice + holding cell, intercepted HTLC held across its timeout boundary (d=-1..7, steps 1-3), forwarded HTLC only in the counterparty's current / previous unrevoked commitment, inbound HTLC with known preimage and a silent upstream; every case is distinct by its op text".into());
 	rec.finish();
 }
